@@ -197,10 +197,12 @@ pub fn push_new(file: &mut A2lFile, kind: usize, name: &str) {
         3 => m.compu_method.push(CompuMethod::new(n, String::new(), ConversionType::Identical, "%6.2".into(), "u".into())),
         4 => m.unit.push(Unit::new(n, String::new(), "u".into(), UnitType::Derived)),
         5 => m.record_layout.push(RecordLayout::new(n)),
+        7 => m.user_rights.push(UserRights::new(n)),
+        8 => m.if_data.push(IfData::new()),
         _ => m.characteristic.push(Characteristic::new(n, String::new(), CharacteristicType::Value, 0, "rl".into(), 0.0, "NO_COMPU_METHOD".into(), 0.0, 255.0)),
     }
 }
-const PUSH_TAGS: [&str; 7] = ["MEASUREMENT", "GROUP", "FUNCTION", "COMPU_METHOD", "UNIT", "RECORD_LAYOUT", "CHARACTERISTIC"];
+const PUSH_TAGS: [&str; 9] = ["MEASUREMENT", "GROUP", "FUNCTION", "COMPU_METHOD", "UNIT", "RECORD_LAYOUT", "CHARACTERISTIC", "USER_RIGHTS", "IF_DATA"];
 
 fn max_uid(snap: &(Vec<SnapSection>, Vec<SnapElem>)) -> u64 {
     snap.0.iter().flat_map(|s| s.elems.iter()).chain(snap.1.iter()).map(|e| e.uid as u64).max().unwrap_or(0)
@@ -288,7 +290,10 @@ pub fn run_c15(args: &Args) -> Report {
                 steps.push(match rng.below(10) {
                     0..=3 => {
                         fresh += 1;
-                        Step::Push(rng.below(7), format!("{}new{fresh}", ["x", "a", "z"][rng.below(3)]))
+                        // mostly the named kinds; the two unnamed list kinds (USER_RIGHTS, IF_DATA) as well; in "burst" histories
+                        // (h % 5 == 3) one kind only, so that several new elements of one kind are placed by one call
+                        let k = if h % 5 == 3 { h % 7 } else { [0, 1, 2, 3, 4, 5, 6, 0, 6, 7, 7][rng.below(11)] };
+                        Step::Push(k, format!("{}new{fresh}", ["x", "a", "z"][rng.below(3)]))
                     }
                     4 => {
                         fresh += 1;
@@ -335,9 +340,19 @@ pub fn run_c15(args: &Args) -> Report {
             match step {
                 Step::Push(k, n) => {
                     let tag = PUSH_TAGS[*k];
-                    let exists = snapshot(&file.project.module[0]).0.iter().any(|s| s.elems.iter().any(|e| e.tag == tag && e.name == *n));
+                    let snap0 = snapshot(&file.project.module[0]);
+                    let exists = snap0.0.iter().any(|s| s.elems.iter().any(|e| e.tag == tag && e.name == *n));
                     if !exists {
+                        // "... without reordering": adding an element does not change the relative written order of the
+                        // elements that were placed before (named elements only: they can be told apart in the text)
+                        let placed: Vec<String> = snap0.0.iter().flat_map(|s| s.elems.iter()).filter(|e| e.uid != 0 && !e.name.is_empty()).map(show).collect();
+                        let ob: Vec<String> = written_children(&file.write_to_string()).first().cloned().unwrap_or_default().into_iter().filter(|x| placed.contains(x)).collect();
                         push_new(&mut file, *k, n);
+                        let oa: Vec<String> = written_children(&file.write_to_string()).first().cloned().unwrap_or_default().into_iter().filter(|x| placed.contains(x)).collect();
+                        if ob != oa {
+                            let k = (0..ob.len().min(oa.len())).find(|&i| ob[i] != oa[i]).unwrap_or(0);
+                            rep.fail("placement", replay(), format!("pushing {tag} {n} changed the relative written order of elements that were already placed: position {k} was {:?}, is {:?}", ob.get(k), oa.get(k)));
+                        }
                     }
                 }
                 Step::Merge(t) => {
